@@ -356,7 +356,15 @@ func predictDisk(capacity int64, sticky *error, f *SecFault, fired *bool, off in
 		case f != nil && !*fired:
 			switch f.Kind {
 			case "fail":
-				if f.Budget < m {
+				capFirst := false
+				if capacity >= 0 {
+					room := capacity - off
+					if room < 0 {
+						room = 0
+					}
+					capFirst = room < f.Budget && room < m // the disk-full point comes first
+				}
+				if !capFirst && f.Budget < m {
 					k, err = f.Budget, errInjected
 					*fired = true
 					if f.Sticky {
@@ -506,6 +514,34 @@ func (Section) Execute(pl engine.Plan, c *engine.RunCtx) *engine.Failure {
 						k, derr = predictDisk(p.Capacity, &m.sticky, op.Fault, &fired, at, mm)
 					}
 					recv := h.OpRecv()
+					// Two fault kinds are not byte-positions but CALL outcomes: "withfull"
+					// (a request is accepted whole and an error is returned with it) and
+					// "short_nil" (fewer bytes than requested and NO error: a violation of
+					// the io.WriterAt contract). How many bytes pass through then depends
+					// on how the implementation splits or retries underlying calls, which
+					// the statement leaves open. For these two the model takes the
+					// accepted count from the disk log (it must be a prefix of the
+					// offered bytes, 1..mm) and still checks placement, the returned
+					// count, the cursor, and — unless held back below — the error.
+					observedK := false
+					if fired && op.Fault != nil && (op.Fault.Kind == "withfull" || op.Fault.Kind == "short_nil") {
+						acc := int64(0)
+						for _, rc := range recv {
+							acc += int64(len(rc.Data))
+						}
+						lo := int64(1)
+						if op.Fault.Kind == "short_nil" {
+							lo = op.Fault.Budget
+						}
+						if acc >= lo && acc <= mm {
+							if acc != k {
+								st.Inc("probe.C18.call_outcome_fault_count_taken_from_disk_log")
+							}
+							k = acc
+							observedK = true
+							// the disk-full rule may additionally have cut it: that is in acc
+						}
+					}
 					c.Ev(wi, op.Op, int64(op.Len), op.Rel, int64(n), int64(len(recv)))
 					// --- C18.contain: every byte received lies inside the caller's section
 					for _, rc := range recv {
@@ -543,7 +579,10 @@ func (Section) Execute(pl engine.Plan, c *engine.RunCtx) *engine.Failure {
 						return
 					}
 					// --- C18.err: error class, by cause
-					if op.Len > 0 { // the error value of a zero-length request is held back
+					if observedK && op.Fault.Kind == "short_nil" && k < mm {
+						// a short count with a nil error from the underlying writer: what
+						// error (if any) the section then reports is not stated
+					} else if op.Len > 0 { // the error value of a zero-length request is held back
 						var want error
 						switch {
 						case refused:
@@ -553,6 +592,9 @@ func (Section) Execute(pl engine.Plan, c *engine.RunCtx) *engine.Failure {
 							}
 						case derr != nil:
 							want = derr
+							if op.Fault != nil && op.Fault.Kind == "fail" && p.Capacity >= 0 && p.Capacity-at == op.Fault.Budget && cause(err) == simio.ErrNoSpace {
+								want = simio.ErrNoSpace // both failure points coincide: either error
+							}
 						case truncated:
 							want = io.ErrShortWrite
 						}
